@@ -835,6 +835,7 @@ func c16Distribute(rc *RunCtx, t *simrt.Tape, dir string, p parCfg) {
 		}
 	}
 	na := "NA"
+	withDir := false
 	mode := t.Choose(4) // 0,1: -c sample ; 2: --batches N ; 3: --hash N
 	nfiles := 2 + t.Choose(4)
 	args := []string{"-p", filepath.Join(dir, "part_%s.fasta")}
@@ -848,6 +849,14 @@ func c16Distribute(rc *RunCtx, t *simrt.Tape, dir string, p parCfg) {
 		if t.Choose(3) == 2 {
 			na = "unknown"
 			args = append(args, "--na-value", na)
+		}
+		if t.Choose(3) == 2 {
+			// a second tag chooses the directory; the file name template is then relative to
+			// the working directory of the command (the run's private directory)
+			withDir = true
+			args[1] = "part_%s.fasta"
+			args = append(args, "-d", "tag")
+			rc.Probe("obidistribute_directory_tag")
 		}
 	}
 	gz := t.Choose(4) == 3
@@ -885,6 +894,13 @@ func c16Distribute(rc *RunCtx, t *simrt.Tape, dir string, p parCfg) {
 		return
 	}
 	files, _ := filepath.Glob(filepath.Join(dir, "part_*.fasta"+suffix))
+	if withDir {
+		files, _ = filepath.Glob(filepath.Join(dir, "*", "part_*.fasta"+suffix))
+		if stray, _ := filepath.Glob(filepath.Join(dir, "part_*.fasta"+suffix)); len(stray) > 0 {
+			rc.Violate("C16/obidistribute/file-set", "-d tag: files written outside the directories of their tag value: %v", relArgs(stray, dir))
+			return
+		}
+	}
 	got := map[string][]string{}
 	for _, f := range files {
 		raw, err := os.ReadFile(f)
@@ -904,7 +920,11 @@ func c16Distribute(rc *RunCtx, t *simrt.Tape, dir string, p parCfg) {
 		for i, q := range ps {
 			rs[i] = irecOfParsed(q)
 		}
-		got[strings.TrimSuffix(filepath.Base(f), suffix)] = canons(rs)
+		name := strings.TrimSuffix(filepath.Base(f), suffix)
+		if withDir {
+			name = filepath.Base(filepath.Dir(f)) + "/" + name
+		}
+		got[name] = canons(rs)
 	}
 	modeName := []string{"classifier", "classifier", "batches", "hash"}[mode]
 	switch mode {
@@ -915,7 +935,15 @@ func c16Distribute(rc *RunCtx, t *simrt.Tape, dir string, p parCfg) {
 			if v, ok := r.Annot["sample"]; ok {
 				key = fmt.Sprint(v)
 			}
-			want["part_"+key+".fasta"] = append(want["part_"+key+".fasta"], irecOf(r).canon())
+			file := "part_" + key + ".fasta"
+			if withDir {
+				d := na
+				if v, ok := r.Annot["tag"]; ok {
+					d = fmt.Sprint(v)
+				}
+				file = d + "/" + file
+			}
+			want[file] = append(want[file], irecOf(r).canon())
 		}
 		if !equalStrings(sortedKeys(got), sortedKeys(want)) {
 			rc.Violate("C16/obidistribute/file-set", "files %v, expected exactly %v", sortedKeys(got), sortedKeys(want))
